@@ -1432,7 +1432,11 @@ pub mod gen {
         for _ in 0..n {
             match rng.below(12) {
                 0 => ops.push(Op::new("frame")),
-                1 => ops.push(Op::new(if rng.chance(1, 2) { "enable" } else { "disable" })),
+                1 => match rng.below(3) {
+                    0 => ops.push(Op::new("enable")),
+                    1 => ops.push(Op::new("disable")),
+                    _ => ops.push(Op::new("max").u("n", *rng.pick(&[1u64, 2, 3, 255]))),
+                },
                 2 => {
                     // a refused call (encap or encap_ext: buffer too small / PDU too long) right before valid traffic
                     let lab = if rng.chance(2, 3) { favourite } else { label(rng, false) };
